@@ -10,7 +10,7 @@ Lemma span_spec p s : s = fst (span p s) ++ snd (span p s) /\ forallb p (fst (sp
   match snd (span p s) with [] => True | c :: _ => p c = false end.
 Proof.
   induction s as [|a r IH]; cbn [span]; [cbn [fst snd app forallb]; auto|]. destruct IH as (A & B & C).
-  destruct (p a) eqn:E; cbn [fst snd app forallb].
+  destruct (p a) eqn:E; cbv zeta; cbn [fst snd app forallb].
   - rewrite E. split; [f_equal; exact A | auto].
   - auto.
 Qed.
@@ -20,7 +20,7 @@ Lemma span_all p ds : forallb p ds = true -> forall rest, match rest with [] => 
 Proof.
   induction ds as [|d r IH]; intros H rest Hr; cbn [app].
   - destruct rest as [|c r0]; [reflexivity|]. cbn [span]. rewrite Hr. reflexivity.
-  - cbn [forallb] in H. apply andb_prop in H. destruct H as (Hd & Hrs). cbn [span]. rewrite Hd, (IH Hrs rest Hr). reflexivity.
+  - cbn [forallb] in H. apply andb_prop in H. destruct H as (Hd & Hrs). cbn [span]. rewrite Hd. cbv zeta. rewrite (IH Hrs rest Hr). reflexivity.
 Qed.
 
 (* ---- the split is a partition of the accepted text ---- *)
